@@ -55,6 +55,7 @@ def InScope (cfg : Cfg) (s : State α) : Op α → Prop
   | .binop2 _ o => o.map List.length = s.lengths ∧ (s.data ≠ [] ∨ cfg.readsFix = true)
   | .iopAt r c _ => IdxAgree cfg s r c ∧ (cfg.rowViewsFix = true ∨ noRows cfg s.lengths.length r = false)
   | .copyCtor viaFlat _ => viaFlat = false ∨ s.data ≠ [] ∨ cfg.readsFix = true
+  | .npLeft _ _ => cfg.priorityFix = true ∧ (s.data ≠ [] ∨ cfg.readsFix = true)
 
 /-- the one writer that leaves the two representations out of step -/
 def StaleWrite (cfg : Cfg) (s : State α) : Op α → Prop
@@ -700,6 +701,32 @@ theorem stepOK_copyCtor (cfg : Cfg) {s : State α} (h : Inv s) (viaFlat np : Boo
     subst e1 e2
     exact ⟨fun _ => h3, by simp⟩
 
+theorem stepOK_npLeft (cfg : Cfg) {s : State α} (h : Inv s) (f : α → α) (rebind : Bool)
+    (hp : cfg.priorityFix = true) (hd : s.data ≠ [] ∨ cfg.readsFix = true) :
+    StepOK cfg s (.npLeft f rebind) := by
+  unfold StepOK
+  obtain ⟨b, h1, h2, h3, h4, _⟩ := mapOp_spec cfg h f hd
+  cases rebind with
+  | true =>
+    simp only [step, npLeftStep, hp, if_true, h1, specStep, absR, h2, Option.map_none, true_and]
+    intro s'' o heq
+    injection heq with heq
+    injection heq with e1 e2
+    subst e1 e2
+    exact ⟨fun _ => h3, by simp⟩
+  | false =>
+    simp only [step, npLeftStep, hp, if_true, h1, Bool.false_eq_true, if_false, specStep, absR, h2,
+      Option.map_some, true_and]
+    intro s'' o heq
+    injection heq with heq
+    injection heq with e1 e2
+    subst e1 e2
+    refine ⟨fun _ => h, ?_⟩
+    intro b' hb
+    injection hb with hb
+    subst hb
+    exact ⟨h3, h4⟩
+
 /-- every operation in scope refines the list-of-rows model and keeps the invariant -/
 theorem stepOK_of_inScope (cfg : Cfg) {s : State α} (h : Inv s) (op : Op α) (hs : InScope cfg s op)
     (hvalid : ∀ r c tg, specTargets s.array r c = .ok tg → ValidTargets s.array tg) :
@@ -721,6 +748,7 @@ theorem stepOK_of_inScope (cfg : Cfg) {s : State α} (h : Inv s) (op : Op α) (h
   | binop f => exact stepOK_binop cfg h f hs
   | binop2 g o => exact stepOK_binop2 cfg h g o hs.1 hs.2
   | copyCtor viaFlat np => exact stepOK_copyCtor cfg h viaFlat np hs
+  | npLeft f rebind => exact stepOK_npLeft cfg h f rebind hs.1 hs.2
 
 end Ens.RaggedW
 
@@ -795,11 +823,12 @@ instance [DecidableEq α] (cfg : Cfg) (s : State α) : (op : Op α) → Decidabl
   | .binop2 _ o => inferInstanceAs (Decidable (o.map List.length = s.lengths ∧ (s.data ≠ [] ∨ cfg.readsFix = true)))
   | .iopAt r c _ => inferInstanceAs (Decidable (IdxAgree cfg s r c ∧ (cfg.rowViewsFix = true ∨ noRows cfg s.lengths.length r = false)))
   | .copyCtor viaFlat _ => inferInstanceAs (Decidable (viaFlat = false ∨ s.data ≠ [] ∨ cfg.readsFix = true))
+  | .npLeft _ _ => inferInstanceAs (Decidable (cfg.priorityFix = true ∧ (s.data ≠ [] ∨ cfg.readsFix = true)))
 
 instance (cfg : Cfg) (s : State α) : (op : Op α) → Decidable (StaleWrite cfg s op)
   | .viewWrite _ _ _ => inferInstanceAs (Decidable (s.kind cfg = .objBlock))
   | .setElem _ _ _ | .setRow _ _ | .setRows _ _ _ | .setIntSlice _ _ _ | .set2d _ _ _
   | .setPaired _ _ _ | .setMask _ _ | .append _ _ | .appendFlat _ | .iop _ | .iop2 _ _
-  | .iopAt _ _ _ | .binop _ | .binop2 _ _ | .copyCtor _ _ => isFalse (fun h => h)
+  | .iopAt _ _ _ | .binop _ | .binop2 _ _ | .copyCtor _ _ | .npLeft _ _ => isFalse (fun h => h)
 
 end Ens.RaggedW
